@@ -148,6 +148,15 @@ theorem decimal_integer_constant (d0 : Nat) (ds : S) (sfx : List Nat) (r : S)
   rw [decimal_constant_reads d0 ds sfx r h0 hnz hds hs hr hdot]
   exact ⟨rfl, rfl⟩
 
+/-- **6.4.4.1, hexadecimal integer constants.**  `0x` / `0X`, hexadecimal digits of ANY number, each suffix spelling (or none), up to a
+character that does not continue a word (and, without a suffix, is no period - a hexadecimal floating constant): one integer constant. -/
+theorem hexadecimal_integer_constant (x : Nat) (hx : x = 120 ∨ x = 88) (hs : S) (sfx : List Nat) (r : S)
+    (hhs : ∀ c ∈ hs, isHexDigit c.c = true) (hsf : sfx ∈ intSuffixes) (hr : isWordTail (hd r) = false) (hdot : sfx = [] → hd r ≠ 46) :
+    (tokenAt 48 ((⟨x, [x]⟩ : Cp) :: (hs ++ (asS sfx ++ r)))).kind = .IntegerConstantToken ∧
+    (tokenAt 48 ((⟨x, [x]⟩ : Cp) :: (hs ++ (asS sfx ++ r)))).rest = r := by
+  rw [hex_constant_reads x hx hs sfx r hhs hsf hr hdot]
+  exact ⟨rfl, rfl⟩
+
 /-- non-vacuity: `12345ull;`, `7)` and `u8x+` -/
 example : (tokenAt 49 (asS w!"2345" ++ (asS w!"ull" ++ asS w!";"))).kind = .IntegerConstantToken ∧
     (tokenAt 49 (asS w!"2345" ++ (asS w!"ull" ++ asS w!";"))).rest = asS w!";" ∧ (tokenAt 55 (asS w!")")).kind = .IntegerConstantToken ∧
